@@ -75,6 +75,18 @@ theorem foldl_flag_nil {fl : List String} {s : St} (h : (fl.foldl St.flag s).fla
   | nil => exact ⟨rfl, h⟩
   | cons f fs => exact absurd h (foldl_flag_ne fs _ (flag_flags_ne s f))
 
+theorem flag_sub (s : St) (g : String) : ∀ f ∈ s.flags, f ∈ (s.flag g).flags := by
+  intro f hf
+  unfold St.flag
+  split
+  · exact hf
+  · exact List.mem_append_left _ hf
+
+theorem foldl_flag_sub (fl : List String) (s : St) : ∀ f ∈ s.flags, f ∈ (fl.foldl St.flag s).flags := by
+  induction fl generalizing s with
+  | nil => exact fun _ h => h
+  | cons g gs ih => exact fun f hf => ih _ f (flag_sub s g f hf)
+
 /-! ## association lists -/
 
 theorem lookupT_some_mem {α : Type} {m : List (Text × α)} {k : Text} {v : α}
